@@ -9,11 +9,57 @@ _VALIDATORS = ["block", "att", "agg", "exit", "pslash", "aslash", "syncMsg", "co
 _THEOREMS = [
     "Zrnt.Proofs.C12.checkSlotSpan_total",
     "Zrnt.Proofs.C12.checkSlotSpan_spec",
+    "Zrnt.Proofs.C12.slotSpanOk_iff",
     "Zrnt.Proofs.C12.le64_eq_spec",
+    "Zrnt.Proofs.C12.isAggregatorH_eq_spec",
     "Zrnt.Proofs.C12.isAggregator_eq_spec",
+    "Zrnt.Proofs.C12.isSyncAggregatorH_eq_spec",
     "Zrnt.Proofs.C12.isSyncAggregator_eq_spec",
     "Zrnt.Proofs.C12.subnet_eq_spec",
     "Zrnt.Proofs.C12.syncSubnet_eq_spec",
+    "Zrnt.Proofs.C12.never_accept_of_iff",
+    "Zrnt.Proofs.C12.block_accept_iff_all_conditions",
+    "Zrnt.Proofs.C12.block_violated_never_accept",
+    "Zrnt.Proofs.C12.block_timing_failures_ignore",
+    "Zrnt.Proofs.C12.block_marks_only_on_accept",
+    "Zrnt.Proofs.C12.att_marks_only_on_accept",
+    "Zrnt.Proofs.C12.att_timing_failures_ignore",
+    "Zrnt.Proofs.C12.att_accept_iff_all_conditions_partial",
+    "Zrnt.Proofs.C12.att_violated_never_accept_partial",
+    "Zrnt.Proofs.C12.att_accepts_non_checkpoint_target",
+    "Zrnt.Proofs.C12.att_deneb_window_differs",
+    "Zrnt.Proofs.C12.selCheck_cases",
+    "Zrnt.Proofs.C12.agg_marks_only_on_accept",
+    "Zrnt.Proofs.C12.agg_timing_failures_ignore",
+    "Zrnt.Proofs.C12.agg_accept_iff_all_conditions_partial",
+    "Zrnt.Proofs.C12.agg_violated_never_accept_partial",
+    "Zrnt.Proofs.C12.agg_accepts_non_checkpoint_target",
+    "Zrnt.Proofs.C12.exitValid_iff",
+    "Zrnt.Proofs.C12.exit_accept_iff_all_conditions",
+    "Zrnt.Proofs.C12.exit_timing_failures_ignore",
+    "Zrnt.Proofs.C12.exit_marks_only_on_accept",
+    "Zrnt.Proofs.C12.exit_violated_never_accept",
+    "Zrnt.Proofs.C12.isSlashable_eq_spec",
+    "Zrnt.Proofs.C12.pslashShapeOk_iff",
+    "Zrnt.Proofs.C12.pslashValid_iff",
+    "Zrnt.Proofs.C12.pslash_accept_iff_all_conditions",
+    "Zrnt.Proofs.C12.pslash_violated_never_accept",
+    "Zrnt.Proofs.C12.pslash_timing_failures_ignore",
+    "Zrnt.Proofs.C12.pslash_marks_only_on_accept",
+    "Zrnt.Proofs.C12.syncCommitteeForSlot_eq_spec",
+    "Zrnt.Proofs.C12.inSubnet_member",
+    "Zrnt.Proofs.C12.syncCommitteeFor_choice",
+    "Zrnt.Proofs.C12.syncMsg_accept_iff_all_conditions",
+    "Zrnt.Proofs.C12.syncMsg_violated_never_accept",
+    "Zrnt.Proofs.C12.syncMsg_timing_failures_ignore",
+    "Zrnt.Proofs.C12.syncMsg_marks_only_on_accept",
+    "Zrnt.Proofs.C12.subcommittee_eq_spec",
+    "Zrnt.Proofs.C12.contrib_marks_only_on_accept",
+    "Zrnt.Proofs.C12.mem_take_drop",
+    "Zrnt.Proofs.C12.contrib_accept_iff_all_conditions",
+    "Zrnt.Proofs.C12.contrib_violated_never_accept",
+    "Zrnt.Proofs.C12.contrib_timing_failures_ignore",
+    "Zrnt.Proofs.C12.aslash_marks_only_on_accept_partial",
 ]
 
 
